@@ -353,3 +353,115 @@ pub fn shape(v: &Val) -> Shape {
     }
     s
 }
+
+/// Structured decoding of raw bytes into a (mostly canonical) value of a layout: for coverage-guided targets
+/// (hand-written `arbitrary`-style decoder; every choice consumes input bytes, exhausted input yields the smallest value).
+pub fn value_from_bytes(t: &Table, name: &str, data: &mut &[u8], depth: u32) -> Val {
+    fn take(data: &mut &[u8]) -> u8 {
+        match data.split_first() {
+            Some((b, rest)) => {
+                *data = rest;
+                *b
+            }
+            None => 0,
+        }
+    }
+    fn take_u64(data: &mut &[u8]) -> u64 {
+        let n = (take(data) % 9) as usize;
+        let mut v = 0u64;
+        for _ in 0..n {
+            v = v << 8 | take(data) as u64;
+        }
+        v
+    }
+    fn payload(t: &Table, f: &Field, data: &mut &[u8], depth: u32) -> Val {
+        let cap = match f.len {
+            Len::Fixed(n) => n,
+            Len::Llv => 99,
+            Len::Temp => 4,
+            _ => 40,
+        };
+        match &f.enc {
+            Enc::Le(b) | Enc::Be(b) => {
+                let max = if *b >= 64 { u64::MAX } else { (1u64 << b) - 1 };
+                Val::U(take_u64(data) & max)
+            }
+            Enc::Bcd(b) => {
+                let tmax: u128 = if *b >= 64 { u64::MAX as u128 } else { (1u128 << b) - 1 };
+                let bytes = match f.len {
+                    Len::Fixed(n) => n,
+                    _ => 10,
+                };
+                let dmax = if bytes >= 10 { u64::MAX as u128 } else { pow10(2 * bytes as u32) - 1 };
+                let m = tmax.min(dmax) as u64;
+                let v = take_u64(data);
+                Val::U(if m == u64::MAX { v } else { v % (m + 1) })
+            }
+            Enc::ReceiptNo => {
+                let v = take_u64(data);
+                Val::U(if v % 7 == 0 { 0xffff } else { v % 10000 })
+            }
+            Enc::Hex => {
+                let n = match f.len {
+                    Len::Fixed(n) => n,
+                    _ => (take(data) as usize) % (cap + 1),
+                };
+                Val::S((0..n).map(|_| format!("{:02x}", take(data))).collect())
+            }
+            Enc::Cp437 => {
+                let n = match f.len {
+                    Len::Fixed(n) => n,
+                    Len::Temp => 3 + (take(data) as usize % 2),
+                    _ => (take(data) as usize) % (cap + 1),
+                };
+                let mut b: Vec<u8> = (0..n).map(|_| take(data)).collect();
+                if let Some(l) = b.last_mut() {
+                    if *l == 0 {
+                        *l = b'x';
+                    }
+                }
+                Val::S(b.iter().map(|x| cp437_char(*x)).collect())
+            }
+            Enc::Utf8 => {
+                let n = (take(data) as usize) % 20;
+                Val::S((0..n).map(|_| (b'a' + take(data) % 26) as char).collect())
+            }
+            Enc::Bytes => {
+                let n = 1 + (take(data) as usize) % 40;
+                Val::B((0..n).map(|_| take(data)).collect())
+            }
+            Enc::DateTime => {
+                let y = (take_u64(data) % 10000) as i32;
+                let mo = 1 + (take(data) % 12) as u32;
+                let d = 1 + (take(data) as u32 % days_in_month_pub(y, mo));
+                Val::Dt(y, mo, d, (take(data) % 24) as u32, (take(data) % 60) as u32, (take(data) % 60) as u32)
+            }
+            Enc::Struct(n) => value_from_bytes(t, n, data, depth + 1),
+        }
+    }
+    let l = &t[name];
+    let mut vals: Vec<(String, Val)> = vec![];
+    let mut pos_opt_absent = false;
+    for f in &l.fields {
+        let v = match f.card {
+            Card::One => payload(t, f, data, depth),
+            Card::Opt => {
+                let always = f.tag.is_none() && f.len == Len::None && matches!(f.enc, Enc::Bcd(_));
+                if !always && (pos_opt_absent || depth > 4 || take(data) % 3 == 0) {
+                    if f.tag.is_none() {
+                        pos_opt_absent = true;
+                    }
+                    Val::None
+                } else {
+                    Val::Some(Box::new(payload(t, f, data, depth)))
+                }
+            }
+            Card::Vec => {
+                let n = if pos_opt_absent || depth > 4 { 0 } else { (take(data) % 4) as usize };
+                Val::List((0..n).map(|_| payload(t, f, data, depth)).collect())
+            }
+        };
+        vals.push((f.name.clone(), v));
+    }
+    Val::St(l.name.clone(), vals)
+}
